@@ -452,6 +452,40 @@ func VerifRequested() {
 	}
 }
 
+// VerifRequestedSkip: requested paths and the sub-directory cut-off together with the skip list,
+// the skip regex and the skip glob (a requested directory that a skip rule matches stays skipped).
+func VerifRequestedSkip() {
+	pc := 1 + verifrt.Choice("paths", len(pathChoices)-1)
+	o := options{paths: pathChoices[pc], skipDirs: map[string]bool{}}
+	o.ignoreSub = verifrt.Choice("ignoreSubDirs", 2) == 1
+	w := newWorld(1)
+	for _, d := range w.dirs {
+		o.skipDirs[d] = verifrt.Bool("skip")
+	}
+	o.regex = regexChoices[verifrt.Choice("regex", len(regexChoices))]
+	o.globPat = globChoices[verifrt.Choice("glob", len(globChoices))]
+	// Left out: a skip rule that matches a strict ancestor of a requested path. The walk starts at
+	// the requested path and never visits the ancestor, so the rule is not consulted; the property
+	// only relates a requested sub-directory to a whole-tree scan "that would reach" it and does
+	// not say what such a request should do.
+	for _, p := range o.paths {
+		for i := 0; i < len(p); i++ {
+			if p[i] == '/' {
+				verifrt.Assume(verifrt.Not(dirSkipped(o, p[:i])))
+			}
+		}
+	}
+	for _, l := range w.leaves {
+		l.req[0] = verifrt.Bool("req")
+	}
+	w.apply()
+	inv, err := w.run(o)
+	if o.ignoreSub && (o.regex != "" || o.globPat != "") {
+		verifrt.Reach("cut-off-with-skip-rule")
+	}
+	w.check(o, inv, err)
+}
+
 // VerifRootsSameName: several scan roots that hold a file at the same relative path; each root's
 // file is judged by its own size and kind (per scan root, exactly once).
 func VerifRootsSameName() {
